@@ -216,6 +216,23 @@ pub fn gen_cfg(rng: &mut Rng, directed: Option<usize>) -> Cfg {
             cfg.table = Some((vec!['Ａ', 'ｱ'], vec![("Ａｂ".into(), "q".into()), ("ｂ".into(), "ｱ".into()), ("ǅ".into(), "z".into())]));
             cfg.pool = vec!['Ａ', 'ｂ', 'ｱ', 'ǅ', 'a'];
         }
+        Some(6) => {
+            // a LARGE table: 4000 one-character keys with 24-byte values = 96 KB of replacement text.  Nothing in a line is
+            // unusual; only the SUM of the values passes 65535 bytes (a table whose values are stored back to back behind
+            // 16-bit offsets - seeded change C07e - wraps there).  The texts of the group take keys from the whole file.
+            cfg.pipe = vec!['D'];
+            let mut t = String::new();
+            let mut prs = vec![];
+            for i in 0..4000u32 {
+                let k = char::from_u32(0x4e00 + i).unwrap().to_string();
+                let v = format!("<{:05}-abcdefghijklmnop>", i);
+                t.push_str(&format!("{} {}\n", k, v));
+                prs.push((k, v));
+            }
+            cfg.def_text = t;
+            cfg.table = Some((vec![], prs));
+            cfg.pool = vec!['\u{4e00}', '\u{4e00}', '\u{5000}', '\u{5800}', '\u{5aaa}', '\u{5d9f}', 'A', 'a', 'あ'];
+        }
         _ => {}
     }
     pool = cfg.pool.clone();
@@ -288,6 +305,8 @@ fn gen_text(rng: &mut Rng, cfg: &Cfg, directed: Option<usize>, sub: usize) -> St
         (Some(4), 0) => return "aー-^a]\\\\ー".into(),
         (Some(5), 0) => return "Ａｂｂǅ".into(),
         (Some(5), 1) => return "ａｂｂ".into(),
+        (Some(6), 0) => return "\u{4e00}\u{5800}\u{5d9f}".into(),
+        (Some(6), 1) => return "A\u{5aaa}\u{5d9f}\u{4e0f}".into(),
         _ => {}
     }
     let n = rng.below(13);
@@ -730,7 +749,7 @@ fn load_cfg(wd: &Workdir, system: &[u8], cfg: Cfg) -> Loaded {
 }
 
 const GROUP: usize = 6;
-const DIRECTED_CFGS: usize = 6;
+const DIRECTED_CFGS: usize = 7;
 
 pub fn run(run: &mut Run) {
     run.rule = "random rewrite tables (prefix-related keys, multi-character keys/values, exempt characters, duplicates, malformed lines, \
